@@ -308,6 +308,12 @@ def run_record(rng, acc, d, clsname, tier, rec_seed=None):
             st = R.stage(W)
             write_ub(st[ci], lambda js: js.__setitem__(fld, tweak(js[fld])))
             must_fail(["ub-edit", fld, ci], st, W)
+    for ci in range(1, R.n):  # a patch claiming the SAME index as its predecessor (links intact): no strictly increasing chain
+        st = R.stage(W)
+        pidx = RE.disk_ublock(st[ci - 1])["patch_index"]
+        write_ub(st[ci], lambda js: js.__setitem__("patch_index", pidx))
+        must_fail(["ub-index-equal", ci], st)
+        must_fail(["ub-index-equal-reversed", ci], list(reversed(st)))
     st = R.stage(W)
     write_ub(st[0], lambda js: js.__setitem__("prev_patch", js["patch_uuid"]))
     must_fail(["ub-base-with-prev"], st, W)
